@@ -8,6 +8,7 @@
 #define SPECTRA_PARTIAL_SVD_SOLVER_H
 
 #include <Eigen/Core>
+#include <cmath>
 #include <memory>  // std::unique_ptr
 #include "../SymEigsSolver.h"
 
@@ -27,11 +28,32 @@ public:
     virtual Index rows() const = 0;
     virtual Index cols() const = 0;
 
-    // y_out = A' * A * x_in or y_out = A * A' * x_in
+    // y_out = A' * A * x_in or y_out = A * A' * x_in, with A divided by scale()
     virtual void perform_op(const Scalar* x_in, Scalar* y_out) const = 0;
+
+    // The operator works on A / scale(), where scale() is the largest magnitude of the entries of A:
+    // the eigen solver's convergence test has an absolute floor, so the spectrum handed to it
+    // must not depend on the units of A (its eigenvalues are the squared singular values)
+    virtual Scalar scale() const = 0;
 
     virtual ~SVDMatOp() {}
 };
+
+// Largest magnitude of the entries of a dense or sparse matrix; 1 if that is zero or not finite
+template <typename Scalar, typename RefType>
+Scalar svd_matrix_scale(const RefType& mat)
+{
+    using std::abs;
+    Scalar s(0);
+    for (Eigen::Index j = 0; j < mat.outerSize(); j++)
+    {
+        for (typename RefType::InnerIterator it(mat, j); it; ++it)
+        {
+            s = (std::max)(s, Scalar(abs(it.value())));
+        }
+    }
+    return (s > Scalar(0) && (std::isfinite)(s)) ? s : Scalar(1);
+}
 
 // Operation of a tall matrix in SVD
 // We compute the eigenvalues of A' * A
@@ -48,6 +70,7 @@ private:
 
     ConstGenericMatrix m_mat;
     const Index m_dim;
+    const Scalar m_scale;
     mutable Vector m_cache;
 
 public:
@@ -55,8 +78,11 @@ public:
     SVDTallMatOp(ConstGenericMatrix& mat) :
         m_mat(mat),
         m_dim((std::min)(mat.rows(), mat.cols())),
+        m_scale(svd_matrix_scale<Scalar>(m_mat)),
         m_cache(mat.rows())
     {}
+
+    Scalar scale() const override { return m_scale; }
 
     // These are the rows and columns of A' * A
     Index rows() const override { return m_dim; }
@@ -68,7 +94,9 @@ public:
         MapConstVec x(x_in, m_mat.cols());
         MapVec y(y_out, m_mat.cols());
         m_cache.noalias() = m_mat * x;
+        m_cache /= m_scale;
         y.noalias() = m_mat.transpose() * m_cache;
+        y /= m_scale;
     }
 };
 
@@ -87,6 +115,7 @@ private:
 
     ConstGenericMatrix m_mat;
     const Index m_dim;
+    const Scalar m_scale;
     mutable Vector m_cache;
 
 public:
@@ -94,8 +123,11 @@ public:
     SVDWideMatOp(ConstGenericMatrix& mat) :
         m_mat(mat),
         m_dim((std::min)(mat.rows(), mat.cols())),
+        m_scale(svd_matrix_scale<Scalar>(m_mat)),
         m_cache(mat.cols())
     {}
+
+    Scalar scale() const override { return m_scale; }
 
     // These are the rows and columns of A * A'
     Index rows() const override { return m_dim; }
@@ -107,7 +139,9 @@ public:
         MapConstVec x(x_in, m_mat.rows());
         MapVec y(y_out, m_mat.rows());
         m_cache.noalias() = m_mat.transpose() * x;
+        m_cache /= m_scale;
         y.noalias() = m_mat * m_cache;
+        y /= m_scale;
     }
 };
 
@@ -171,7 +205,8 @@ public:
     Vector singular_values() const
     {
         // A zero singular value can come back as a slightly negative eigenvalue of A'A or AA'
-        Vector svals = m_eigs->eigenvalues().cwiseMax(Scalar(0)).cwiseSqrt();
+        // The eigenvalues are those of the operator built on A / scale()
+        Vector svals = m_eigs->eigenvalues().cwiseMax(Scalar(0)).cwiseSqrt() * m_op->scale();
 
         return svals;
     }
@@ -189,7 +224,7 @@ public:
             return m_evecs.leftCols(nu);
         }
 
-        return m_mat * (m_evecs.leftCols(nu).array().rowwise() / m_eigs->eigenvalues().head(nu).transpose().array().sqrt()).matrix();
+        return m_mat * (m_evecs.leftCols(nu).array().rowwise() / (m_eigs->eigenvalues().head(nu).transpose().array().sqrt() * m_op->scale())).matrix();
     }
 
     // The converged right singular vectors
@@ -205,7 +240,7 @@ public:
             return m_evecs.leftCols(nv);
         }
 
-        return m_mat.transpose() * (m_evecs.leftCols(nv).array().rowwise() / m_eigs->eigenvalues().head(nv).transpose().array().sqrt()).matrix();
+        return m_mat.transpose() * (m_evecs.leftCols(nv).array().rowwise() / (m_eigs->eigenvalues().head(nv).transpose().array().sqrt() * m_op->scale())).matrix();
     }
 };
 
